@@ -171,7 +171,7 @@ def run(ctx: Ctx) -> None:
     install_audit()
     with Taps(ctx) as taps:
         install(taps, ctx)
-        for idx in ctx.indices("histories", 40 if ctx.quick else 2500):
+        for idx in ctx.indices("histories", 40 if ctx.quick else 7000):
             r = ctx.rng("histories", idx)
             task = r.choice(["detection", "detection", "tracking", "fp_validation"])
             scn = gen_scenario(r, task=task, n_frames=r.randint(2, 5 if ctx.quick else 8))
